@@ -147,7 +147,7 @@ def gen_case(ci, corpus=None):
 cases = []
 CORPUS = [[[0, None], [1, 1], [2, 1], [2, None]], [[0, 1], [0, 1], [1, 0]], [[9, None]], [[0, 0], [1, None], [1, None]],
           [[1, 2], [1, 2], [2, 2]], [[0, None], [0, 3]]]
-n = 32 if tier == "quick" else 260
+n = 32 if tier == "quick" else 500
 for ci in range(n):
     cases.append(gen_case(ci, CORPUS[ci // 5] if ci < 5 * len(CORPUS) and ci % 5 in (0, 3, 4) and ci // 5 < len(CORPUS) else None))
 print(json.dumps({"cases": cases}))
